@@ -493,7 +493,8 @@ class ForvesRendering(NativeCase):
     def run_native(self, tier):
         import io, contextlib
         n = 0
-        for b in corpus.BASE_BLOCKS:
+        for b in list(corpus.BASE_BLOCKS) + SPLIT_CORPUS + ["SWAP1 JUMP", "PUSH 0 ADD JUMP", "JUMPDEST SWAP1 JUMP", "PUSH 1 PUSH 2 LOG0 PUSH 3",
+                                                            "PUSH 1 LOG0 PUSH 2 PUSH 3", "NOT STOP"]:
             toks = corpus.tokens(b)
             plain = ' '.join(t if not t.startswith('PUSH ') else t for t in toks)
             with contextlib.redirect_stderr(io.StringIO()), contextlib.redirect_stdout(io.StringIO()):
